@@ -23,12 +23,16 @@ DECIDED = [
     "R-C12-CLOCK: reschedule restarts the time-to-live clock, retry does not (shared with C06-RESET / C04-STEP)",
     "R-C12-CLOCK (stored): Redis requeue overwrites payload and parameters with HSET (HSETNX would keep the old clock); R-C12-RETRIEVABLE (names): dead-letter list names carry the message's priority",
     "R-C12-CMP (clock family): every clock reading / timestamp conversion in repid belongs to one family (naive local); R-C12-CLOCK (fresh defaults): timestamps default per object",
+    "R-C12-GATE (round 5): category comparisons by equality",
 ]
 NOT_DECIDED = ["the instant of the test relative to the expiry on a real clock"]
 ASSUMPTIONS = ["RabbitMQ dead-letters a nacked (requeue=False) message to the queue's DLX routing key (topology checked by C05-POLL)"]
 
 
 def run(ctx: Ctx) -> None:
+    from .shared import category_equality
+
+    category_equality(ctx, "R-C12-GATE")
     from .shared import fresh_defaults
 
     with ctx.as_rule("R-C12-CLOCK"):
